@@ -326,6 +326,15 @@ def in_statements():
             out.append((f'{sn}|{op.__name__}|where-and', select([(id_, None), (v, None)], from_='t', where=A.And([A.IsNotNull(k), op(x, sub)]))))
             out.append((f'{sn}|{op.__name__}|two-subqueries', select([(id_, None), (op(x, sub), 'm'), (A.In(id_, select([(j, None)], from_='u')), 'n'), (v, None)], from_='t')))
             out.append((f'{sn}|{op.__name__}|agg-where', select([(k, None), (F('count', A.Asterisk()), 'n')], from_='t', where=op(x, sub), group_by=A.GroupBy([k], None))))
+    # a sub-SELECT WITHOUT a FROM clause reads the enclosing query's table: here that table is itself a FROM sub-query, which
+    # is then scanned by the outer query and, overlapping, by the IN sub-query
+    inner_t = select([(id_, 'a'), (v, 'b')], from_='t')
+    nofrom = select([(col('a'), None)], where=A.Greater(col('a'), C(1)))
+    nofrom_b = select([(col('b'), None)], where=A.IsNotNull(col('b')))
+    for op in (A.In, A.NotIn):
+        out.append((f'nofrom-over-subquery|{op.__name__}|where', select([(col('a'), None), (col('b'), None)], from_=inner_t, where=op(col('a'), nofrom))))
+        out.append((f'nofrom-over-subquery|{op.__name__}|target-last', select([(col('a'), None), (op(col('b'), nofrom_b), 'm')], from_=inner_t)))
+        out.append((f'nofrom-over-subquery|{op.__name__}|agg-where', select([(F('count', A.Asterisk()), 'n')], from_=inner_t, where=op(col('a'), nofrom))))
     # the enclosing query reads another table than the sub-query, which itself nests an IN sub-query
     nested = select([(v, None)], from_='t', where=A.In(v, select([(j, None)], from_='u')))
     nested2 = select([(v, None)], from_='t', where=A.In(id_, select([(id_, None)], from_='t', where=A.In(v, select([(j, None)], from_='u')))))
@@ -362,6 +371,19 @@ def check_in(tag, stmt, seed, acc, variant=None):
         return
     acc.count('in_null_cells', sum(1 for r in exp for x in r if x is None))
     acc.add('outcomes', repr(rows)[:60])
+    # one compiled statement executed twice: a sub-query's rows are produced anew by every execution
+    try:
+        from beanquery import query_execute
+        compiled = conn.compile(stmt)
+        again = [query_execute.execute_query(compiled)[1] for _ in range(2)]
+    except Exception as e:
+        acc.violation(f'crash:{crash_fingerprint(e)}', f'compiling {show(stmt)} once and executing it twice raised {type(e).__name__}: {e}', case)
+        return
+    acc.count('executions', 2)
+    for i, r in enumerate(again):
+        if [tuple(map(typed, x)) for x in r] != [tuple(map(typed, x)) for x in exp]:
+            acc.violation('compiled-statement-re-execution', f'{show(stmt)} compiled once: execution {i + 1} gives {r!r}, reference {exp!r}', case)
+            return
 
 
 # ---- text sweep: expression-named and duplicate-named inner outputs -----------------------
@@ -477,6 +499,46 @@ def check_ledger(acc_, only=None):
         acc_.count('rows_compared', len(got))
 
 
+def check_ledger_unhashable(acc_, only=None):
+    """IN / NOT IN with an UNHASHABLE left operand (metadata dict, Inventory) that does occur in the sub-query's column."""
+    from .. import sample_ledger
+    acct, meta, num = col('account'), col('meta'), col('number')
+    inv_sub = select([(F('sum', col('position')), 's')], from_=A.Table('postings'), group_by=A.GroupBy([acct], None))
+    inv_outer = select([(acct, 'a'), (F('sum', col('position')), 'total')], from_=A.Table('postings'), group_by=A.GroupBy([col('a')], None))
+    cases = [
+        ('meta', select([(meta, None)], from_=A.Table('postings'), where=A.Greater(num, C(0))), select([(acct, None), (meta, 'x')], from_=A.Table('postings')), meta),
+        ('inventory', inv_sub, select([(col('a'), None), (col('total'), 'x')], from_=inv_outer), col('total')),
+    ]
+    for name, sub, base, left in cases:
+        for op in (A.In, A.NotIn):
+            tag = f'{name}|{op.__name__}'
+            if only is not None and tag != only:
+                continue
+            acc_.count('executions')
+            acc_.count('ledger_in_statements')
+            case = {'kind': 'ledger-unhashable', 'tag': tag}
+            stmt = A.Select([A.Target(base.targets[0].expression, None), A.Target(op(left, sub), 'm')], base.from_clause, None, None, None, None, None, None)
+            try:
+                members = [r[0] for r in sample_ledger.connect().execute(sub).fetchall()]
+                baserows = sample_ledger.connect().execute(base).fetchall()
+                got = sample_ledger.connect().execute(stmt).fetchall()
+            except Exception as e:
+                acc_.violation(f'crash:{crash_fingerprint(e)}', f'{show(stmt)} raised {type(e).__name__}: {e}', case)
+                continue
+
+            def member(x):
+                if x is None or not members:
+                    return None
+                found = any(x == y for y in members if y is not None)
+                return (not found) if op is A.NotIn else found
+            exp = [(a, member(x)) for a, x in baserows]
+            if [(a, m) for a, m in got] != exp:
+                acc_.violation(f'ledger-in:unhashable|{name}', f'{show(stmt)}: got {got[:5]!r}; membership by equality in the sub-query\'s own output gives {exp[:5]!r}', case)
+                continue
+            acc_.count('rows_compared', len(got))
+            acc_.add('outcomes', repr(sorted(set(m for _, m in exp), key=repr)))
+
+
 def shard_fn(shard, nshards, seed, tier):
     acc = Acc()
     js = jobs(seed)
@@ -504,6 +566,7 @@ def shard_fn(shard, nshards, seed, tier):
             check_text(tag, text, kind, seed, acc)
     if shard == 1 % nshards:
         check_ledger(acc)
+        check_ledger_unhashable(acc)
     return acc
 
 
@@ -513,6 +576,8 @@ def replay(c):
         run_job(tuple(c['job']), c['seed'], acc, tuple(c['variant']) if c.get('variant') is not None else None)
     elif c['kind'] == 'ledger-in':
         check_ledger(acc, only=c['tag'])
+    elif c['kind'] == 'ledger-unhashable':
+        check_ledger_unhashable(acc, only=c['tag'])
     elif c['kind'] == 'in':
         for tag, stmt in in_statements():
             if tag == c['tag']:
